@@ -21,6 +21,17 @@ CLAIMED = {
     },
 }
 
+CLAIMED["C06"] = {
+    "text": "Bounded model checking of the real FmtStr.__getitem__/normalize_slice/__add__/__radd__/__mul__/join: for each "
+            "fixed run structure z3 proves on every path that the result's characters and formatting equal what the same "
+            "operation gives on the per-character lists, for ALL run lengths (empty runs included), ALL slice bounds and "
+            "indices in Z (and None) and all positions; IndexError exactly outside [-len, len).",
+    "note": "Trusted: CPython, CrossHair 0.0.110 + z3, SegStr domain (self-tested), placeholder text for symbolic ints inside "
+            "exception messages. Run counts above the stated bounds, repeat counts > 6 and joins of > 3 items are outside.",
+    "technique": TECH + "; SegStr LIA string domain, position-function oracle",
+    "design": "DESIGN.md section 3 C06",
+}
+
 NOT_YET = {}
 
 ALL = ["C%02d" % i for i in range(1, 21)]
